@@ -118,6 +118,11 @@ func e2eCase(r *rng.R, dir string) []string {
 	if r.Chance(50) {
 		var lf strings.Builder
 		ls := []string{}
+		if r.Bool() && start >= 0x0200 {
+			// symbols below the load address (zero-page variables): defined in the file, not part of the report
+			fmt.Fprintf(&lf, "\tzp_ptr\t= $%02x\n", 0x10+r.Intn(0xE0))
+			fmt.Fprintf(&lf, "\tstack_top\t= $01ff\n")
+		}
 		for i := 0; i < n; i++ {
 			if r.Chance(12) {
 				names := []string{}
